@@ -112,31 +112,39 @@ fn main() {
         std::process::exit(run_replay(&ctx, &path));
     }
 
-    let outcome: Outcome = match prop.as_str() {
-        "C01" => c01::run(&ctx),
-        "C02" => c02::run(&ctx),
-        "C03" => c03::run(&ctx),
-        "C04" => c04::run(&ctx),
-        "C05" => c05::run(&ctx),
-        "C06" => c06::run(&ctx),
-        "C07" => c07::run(&ctx),
-        "C08" => c08::run(&ctx),
-        "C09" => c09::run(&ctx),
-        "C10" => c10::run(&ctx, false),
-        "C11" => c10::run(&ctx, true),
-        "C12" => c12::run(&ctx),
-        "C13" => c13::run(&ctx),
-        "C14" => c14::run(&ctx),
-        "C15" => c15::run(&ctx),
-        "C16" => c16::run(&ctx),
-        "C17" => c17::run(&ctx),
-        "C18" => c18::run(&ctx),
-        "C19" => c19::run(&ctx),
-        "C20" => c20::run(&ctx),
-        _ => usage(),
-    };
+    let outcome: Outcome = dispatch(&ctx);
     let wall = start.elapsed().as_secs_f64();
     std::process::exit(finish(&ctx, outcome, wall, write_evidence));
+}
+
+fn util_clip(s: &str, n: usize) -> String {
+    clip(s, n)
+}
+
+fn dispatch(ctx: &Ctx) -> Outcome {
+    match ctx.prop.as_str() {
+        "C01" => c01::run(ctx),
+        "C02" => c02::run(ctx),
+        "C03" => c03::run(ctx),
+        "C04" => c04::run(ctx),
+        "C05" => c05::run(ctx),
+        "C06" => c06::run(ctx),
+        "C07" => c07::run(ctx),
+        "C08" => c08::run(ctx),
+        "C09" => c09::run(ctx),
+        "C10" => c10::run(ctx, false),
+        "C11" => c10::run(ctx, true),
+        "C12" => c12::run(ctx),
+        "C13" => c13::run(ctx),
+        "C14" => c14::run(ctx),
+        "C15" => c15::run(ctx),
+        "C16" => c16::run(ctx),
+        "C17" => c17::run(ctx),
+        "C18" => c18::run(ctx),
+        "C19" => c19::run(ctx),
+        "C20" => c20::run(ctx),
+        _ => usage(),
+    }
 }
 
 /// Known findings: `{ "findings": [ {property, monitor, signature, what} ], "fixed": [ "fixed: ..." ] }`.
@@ -267,6 +275,7 @@ fn finish(ctx: &Ctx, outcome: Outcome, wall: f64, write_evidence: bool) -> i32 {
             ("violations".into(), J::Int(new_violations.len() as i128)),
             ("known_findings_matched".into(), J::Int(known_hits.len() as i128)),
             ("verdict".into(), J::s(verdict)),
+            ("repo_under_test".into(), J::s(std::env::var("FDMON_REPO_DESC").unwrap_or_else(|_| "unknown".into()))),
         ]);
         let dir = format!("{}/evidence", out_dir);
         let _ = std::fs::create_dir_all(&dir);
@@ -354,15 +363,37 @@ fn run_replay(ctx: &Ctx, path: &str) -> i32 {
         _ => false,
     };
     if !supported {
-        println!(
-            "replay: property {} (monitor {}) has no single-case replayer; re-run `./check {} {} ` with VERIF_SEED={} to regenerate the case — the file holds the concrete case, expected and observed values",
-            ctx.prop,
-            monitor,
-            ctx.prop,
-            j.get("tier").and_then(|t| t.as_str()).unwrap_or("quick"),
-            j.get("seed").and_then(|s| s.as_u64()).unwrap_or(1)
-        );
-        return 2;
+        // Generic fallback: every workload is a deterministic function of (tier, seed), so re-run the whole check with the
+        // recorded tier and seed and look for a violation with the same monitor and signature.
+        let tier = match j.get("tier").and_then(|t| t.as_str()) {
+            Some("thorough") => Tier::Thorough,
+            _ => Tier::Quick,
+        };
+        let seed = j.get("seed").and_then(|s| s.as_u64()).unwrap_or(ctx.seed);
+        let want_sig = j.get("signature").and_then(|s| s.as_str()).unwrap_or("").to_string();
+        let mut c2 = ctx.clone();
+        c2.tier = tier;
+        c2.seed = seed;
+        println!("replay: re-running {} {} with seed {} and looking for [{}] {}", ctx.prop, if tier == Tier::Quick { "quick" } else { "thorough" }, seed, monitor, util_clip(&want_sig, 120));
+        let out = dispatch(&c2);
+        let hit = out.report.violations.iter().find(|v| v.monitor == monitor && v.signature == want_sig);
+        let same_class = out.report.violations.iter().find(|v| v.monitor == monitor);
+        return match (hit, same_class) {
+            (Some(v), _) => {
+                println!("  [{}] {}", v.monitor, util_clip(&v.what, 600));
+                println!("VIOLATION property={} replay={}", ctx.prop, path);
+                1
+            }
+            (None, Some(v)) => {
+                println!("replay: the recorded case was not reported again, but the same monitor reports: {}", util_clip(&v.what, 400));
+                println!("VIOLATION property={} replay={}", ctx.prop, path);
+                1
+            }
+            (None, None) => {
+                println!("replay: case no longer violates {}", ctx.prop);
+                0
+            }
+        };
     }
     if rep.violations.is_empty() {
         println!("replay: case no longer violates {}", ctx.prop);
